@@ -53,6 +53,22 @@ def cached_methods():
     return out
 
 
+def canon_key(recv, a, k):
+    """the lru_cache key of a call, with argument OBJECTS replaced by their ordinal of first appearance for this
+    receiver (lru_cache compares them by identity; the registry keeps them alive so ids are not reused)"""
+    reg = _TRACE.setdefault('objs', {}).setdefault(id(recv), {})
+
+    def c(v):
+        if isinstance(v, (str, int, float, bool, type(None))):
+            return v
+        if isinstance(v, tuple):
+            return tuple(c(x) for x in v)
+        if id(v) not in reg:
+            reg[id(v)] = (len(reg), v)
+        return ('obj', reg[id(v)][0])
+    return (tuple(c(x) for x in a), tuple((kk, c(v)) for kk, v in k.items()))
+
+
 def install_tracing():
     """wrap every lru_cache'd attribute (once per process); the lru object itself is untouched"""
     for cls, name in cached_methods():
@@ -66,7 +82,7 @@ def install_tracing():
                 if not _TRACE['on']:
                     return lru(self, *a, **k)
                 before = lru.cache_info()
-                entry = {'depth': _TRACE['depth'], 'meth': name, 'key': (a, tuple(k.items())), 'recv': id(self), 'hit': None}
+                entry = {'depth': _TRACE['depth'], 'meth': name, 'key': canon_key(self, a, k), 'recv': id(self), 'hit': None}
                 _TRACE['log'].append(entry)
                 _TRACE['depth'] += 1
                 try:
@@ -151,6 +167,13 @@ def query_table():
         ("calculate_n_hop_adj('nodal', 2)", lambda f: f.calculate_n_hop_adj('nodal', 2)),
         ("calculate_n_hop_adj(mode='nodal', n_hop=2)", lambda f: f.calculate_n_hop_adj(mode='nodal', n_hop=2)),
         ("calculate_n_hop_adj('elemental', 1)", lambda f: f.calculate_n_hop_adj('elemental', 1)),
+        ("calculate_n_hop_adj('nodal', 1, include_self_loop=False)", lambda f: f.calculate_n_hop_adj('nodal', 1, include_self_loop=False)),
+        ("calculate_n_hop_adj('elemental', 1, False)", lambda f: f.calculate_n_hop_adj('elemental', 1, False)),
+        ("calculate_n_hop_adj('nodal', 3, False)", lambda f: f.calculate_n_hop_adj('nodal', 3, False)),
+        ("calculate_nodal_spatial_gradients(T)", lambda f: f.calculate_nodal_spatial_gradients(f.nodal_data.get_attribute_data('T'))),
+        ("calculate_elemental_spatial_gradients(E)", lambda f: f.calculate_elemental_spatial_gradients(
+            f.elemental_data.get_attribute_data('E'))),
+        ("calculate_element_degree() ", lambda f: f.calculate_element_degree()),
         ('calculate_laplacian_matrix()', lambda f: f.calculate_laplacian_matrix()),
         ("calculate_laplacian_matrix(mode='elemental')", lambda f: f.calculate_laplacian_matrix(mode='elemental')),
         ('calculate_edge_gradient_matrix()', lambda f: f.calculate_edge_gradient_matrix()),
@@ -181,6 +204,11 @@ def family(qname):
         if qname.startswith(fam):
             return fam
     return None
+
+
+def reads_stored(qname):
+    """queries that read the derived variables stored in elemental_data (volume / area / metric), directly or as weights"""
+    return family(qname) is not None or qname.startswith(('convert_', 'calculate_nodal_spatial', 'calculate_elemental_spatial'))
 
 
 def base_name(qname):
@@ -246,7 +274,7 @@ def apply_modifier(r, fd, which):
 def run_history(ctx, hid, script=None):
     r = ctx.rng
     queries = query_table()
-    kind = r.choice(['tet', 'tet', 'hex'])
+    kind = r.choice(['tet', 'tet', 'hex', 'prism'])
     n_obj = r.choice([1, 1, 2, 3])
     objs = []
     for i in range(n_obj):
@@ -257,12 +285,14 @@ def run_history(ctx, hid, script=None):
     meth_id = {n: i for i, n in enumerate(names)}
     caps = {meth_id[n]: _WRAPPED[n].cache_parameters()['maxsize'] for n in names}
     clear_caches()
+    _TRACE['objs'] = {}
     versions = [0] * n_obj
     modified = [False] * n_obj
     fam_opts = [dict() for _ in range(n_obj)]
     argids = {}
     rules = {}
     ops_model = []
+    model_on = True
     records = []       # per op
     hist = []
     n_ops = r.randint(2, ctx.n(14, 40)) if script is None else len(script)
@@ -311,7 +341,7 @@ def run_history(ctx, hid, script=None):
                    'snapshot': snap, 'case': case, 'err': err,
                    # a stored derived variable (volume / area / metric) may have been written by ANY earlier query on this
                    # object (metrics -> volumes, conversions -> metrics, ...), with that query's own options
-                   'opts_differ': family(qname) is not None and fam_opts[o].get('any', False)}
+                   'opts_differ': reads_stored(qname) and fam_opts[o].get('any', False)}
             fam_opts[o]['any'] = True
             records.append(rec)
             # rules from the trace: children of every miss
@@ -333,10 +363,17 @@ def run_history(ctx, hid, script=None):
                         else:
                             recv = tmp_ids.setdefault(f['recv'], len(tmp_ids) + 1)
                         children.append((f['mkey'][0], f['mkey'][1], recv))
-                if e['mkey'] in rules and rules[e['mkey']] != children:
-                    ctx.notes.append(f'nested calls of {e["meth"]}{e["key"]} are not static: {rules[e["mkey"]]} vs {children}')
-                rules.setdefault(e['mkey'], children)
-            if len(top) == 1:
+                ver = next((versions[i] for i, ob in enumerate(objs) if id(ob) == e['recv']), 0)
+                rkey = (e['mkey'][0], e['mkey'][1], ver)
+                if rkey in rules and rules[rkey] != children:
+                    ctx.notes.append(f'nested calls of {e["meth"]}{e["key"]} are not static: {rules[rkey]} vs {children}')
+                rules.setdefault(rkey, children)
+            if err is not None:
+                model_on = False       # lru_cache stores nothing when the wrapped call raises: not modelled
+                ctx.count('query-raised(model off for the rest of the history)')
+            if not model_on:
+                pass
+            elif len(top) == 1:
                 ops_model.append(('q', o + 1, top[0]['mkey'][0], top[0]['mkey'][1], len(records) - 1))
             elif top:
                 # an uncached query that makes several top-level cached calls: one model query per call
@@ -359,7 +396,8 @@ def run_history(ctx, hid, script=None):
             if changed:
                 versions[o] += 1
                 modified[o] = True
-                ops_model.append(('m', o + 1))
+                if model_on:
+                    ops_model.append(('m', o + 1))
         else:
             try:
                 with contextlib.redirect_stdout(io.StringIO()):
@@ -401,7 +439,7 @@ def run_history(ctx, hid, script=None):
     # ---------------- correspondence with the cache model
     if ctx.driver is not None and ops_model:
         line = 'c19.run 0 ' + C.enc_list(caps.items(), lambda kv: f'{kv[0]} {kv[1]}') + ' ' + C.enc_list(
-            rules.items(), lambda kv: f'{kv[0][0]} {kv[0][1]} ' + C.enc_list(kv[1], lambda c: f'{c[0]} {c[1]} {c[2]}')) + ' ' + \
+            rules.items(), lambda kv: f'{kv[0][0]} {kv[0][1]} {kv[0][2]} ' + C.enc_list(kv[1], lambda c: f'{c[0]} {c[1]} {c[2]}')) + ' ' + \
             C.enc_list(ops_model, lambda op: (f'q {op[1]} {op[2]} {op[3]}' if op[0] == 'q' else f'm {op[1]}'))
         t = C.Toks(ctx.driver.ask(line))
         if t.tok() != 'ok':
@@ -422,8 +460,9 @@ def run_history(ctx, hid, script=None):
             if (m['hits'], m['misses']) != (rec['hits'], rec['misses']):
                 ctx.disagree('cache hits/misses of ' + rec['qname'], rec['case'], {'hits': rec['hits'], 'misses': rec['misses']}, m)
                 break
-            if m['stamp'] == rec['version'] and rec.get('is_fresh') is False and family(rec['qname']) is None \
-                    and not rec['qname'].startswith('convert_'):
+            # queries that read the derived variables stored in elemental_data (volume / area / metric) are outside the
+            # lru model: their freshness is judged by the oracle only
+            if m['stamp'] == rec['version'] and rec.get('is_fresh') is False and not reads_stored(rec['qname']):
                 ctx.disagree('model says computed from the current mesh, value differs from fresh: ' + rec['qname'], rec['case'],
                              'stale', m)
                 break
